@@ -9,7 +9,7 @@ NOT_APPLICABLE = {
     "C03": "statement about ~25 concrete proof files x a build matrix: no symbolic input to quantify over and the real hashes cannot be encoded; the symbolic fragments it rests on are claimed under C04/C05/C09/C13/C14 (DESIGN.md C03)",
     "C19": "regex/serde_json/string parsing in proof_parser and cli (which do not even build offline here): text-processing loops behind library internals are out of reach of bounded symbolic execution; nothing arithmetic for the SMT route (DESIGN.md C19)",
 }
-NOT_READY = {"C17"}   # obligations still being built (E2s); remove when smt/run.py serves them
+NOT_READY = set()   # obligations still being built (E2s); remove when smt/run.py serves them
 PENDING = "check not built yet in this session (claimed in DESIGN.md; will move to checks when its harness is committed)"
 
 def main():
